@@ -27,6 +27,7 @@ import (
 	"regexp"
 	"strconv"
 	"strings"
+	"sync"
 	"syscall"
 
 	"github.com/osrg/gobgp/v4/pkg/packet/bgp"
@@ -1370,6 +1371,8 @@ type Client struct {
 	Version       uint8
 	Software      Software
 	logger        *slog.Logger
+	done          chan struct{} // closed by Close
+	closeOnce     *sync.Once
 }
 
 func ReceiveSingleMsg(logger *slog.Logger, conn net.Conn, version uint8, software Software, topic string) (*Message, error) {
@@ -1448,11 +1451,19 @@ func NewClient(logger *slog.Logger, network, address string, typ RouteType, vers
 		Version:       version,
 		Software:      software,
 		logger:        logger,
+		done:          make(chan struct{}),
+		closeOnce:     &sync.Once{},
 	}
 
 	go func() {
 		for {
-			m, more := <-outgoing
+			var m *Message
+			var more bool
+			select {
+			case m, more = <-outgoing:
+			case <-c.done:
+				return
+			}
 			if more {
 				b, err := m.Serialize(software)
 				if err != nil {
@@ -1467,7 +1478,7 @@ func NewClient(logger *slog.Logger, network, address string, typ RouteType, vers
 						slog.String("Topic", "Zebra"),
 						slog.String("Error", err.Error()),
 					)
-					closeChannel(outgoing)
+					c.Close()
 					return
 				}
 			} else {
@@ -1539,7 +1550,11 @@ func (c *Client) send(m *Message) {
 		slog.String("Topic", "Zebra"),
 		slog.Any("Header", m.Header),
 		slog.Any("Body", m.Body))
-	c.outgoing <- m
+	select {
+	case c.outgoing <- m:
+	case <-c.done:
+		// the client is closed: nobody takes messages any more
+	}
 }
 
 func (c *Client) sendCommand(command APIType, vrfID uint32, body Body) {
@@ -1714,7 +1729,14 @@ func closeChannel(ch chan *Message) bool {
 }
 
 func (c *Client) close() {
-	closeChannel(c.outgoing)
+	c.Close()
+}
+
+// Close ends the session with zebra: the connection is closed and both the
+// sending and the receiving goroutine of the client finish. It may be called
+// more than once.
+func (c *Client) Close() {
+	c.closeOnce.Do(func() { close(c.done) })
 	c.conn.Close()
 }
 
